@@ -502,6 +502,30 @@ def run_case(case):
     # ---- builtin objects as components (None included): a query by object
     # matches them all, and each remove_component detaches exactly one
     wb = desper.World()
+    # a bare object() among other components, not the first one attached:
+    # a query by `object` matches them all and prefers the exact type
+    tag = object()
+    others = [7, 'y', CRoot()][:1 + len(dag) % 3]
+    et = wb.create_entity(*others, tag)
+    try:
+        one = wb.get_component(et, object)
+        res.stats['queries_checked'] += 1
+        if one is not tag:
+            fail('get_component-exact-first', 'get_component(e, object) on '
+                 'an entity holding a bare object() besides '
+                 f'{[type(o).__name__ for o in others]}', 'the object() '
+                 'instance (exactly the queried type)', repr(one), -2)
+            return _fin(res)
+        gone = wb.remove_component(et, object)
+        res.stats['queries_checked'] += 1
+        if gone is not tag or len(wb.get_components(et)) != len(others):
+            fail('remove_component', 'remove_component(e, object) on that '
+                 'entity', 'the object() instance detached, nothing else',
+                 [repr(gone), len(wb.get_components(et))], -2)
+            return _fin(res)
+    except Exception as ex:
+        fail('query-raised', 'queries by `object` raised', None, repr(ex), -2)
+        return _fin(res)
     builtin = [None, 5, 'x', 2.5, CRoot()][:2 + len(dag) % 4]
     eb = wb.create_entity(*builtin)
     try:
